@@ -109,6 +109,42 @@ reg("C19", "exploration",
     "other genesis and self connections.",
     "Delays stay far below the 2 s / 60 s codec timeouts (premise of the property). One recorded known finding (under-counted item lists are accepted).")
 
+reg("C08", "exploration",
+    "online reference-model monitor (unpruned leaf history + MMR by definition) over random unit-of-work programs on the real PMMR backend; chain-level compaction differential",
+    "Random programs follow the store's usage protocol exactly (optional rewind to an earlier block boundary with the matching positions, "
+    "appends then removals per block, sync or discard, check_compact at earlier boundaries, drop/reopen) with forced spend patterns "
+    "(siblings, subtrees, peaks, alternating, re-added then re-spent); after EVERY step root, size, data and hash of every unspent leaf, "
+    "absence of spent leaves, Merkle proofs against the reference root and path, leaf_pos_iter and n_unpruned_leaves are compared with an "
+    "unpruned reference. Chain level: >=160-block chain, Chain::compact twice, in-horizon reorgs that re-spend outputs, reopen; head, roots, "
+    "unspent set and validate(false) before == after.",
+    "Variable-size elements only on non-prunable backends (as grin uses them). Rewinds stay at or above the last compaction cutoff (guaranteed by the horizon).")
+
+reg("C14", "exploration",
+    "invariant hooks re-evaluated from scratch after every pool operation on the real Chain + TransactionPool + server adapters wiring",
+    "Random operation sequences (valid / conflicting / dependent / duplicate / aggregated / low-fee / overweight / invalid submissions, stem and "
+    "fluff, mining from prepare_mineable_transactions, foreign blocks with subsets or conflicting spends, reorgs, eviction at capacity) run "
+    "against the node's own wiring (ChainToPoolAndNetAdapter, PoolToChainAdapter). After every operation: the txpool aggregate validates and "
+    "passes Chain::validate_tx, no shared inputs, stempool+txpool jointly valid, nothing violating fee / weight / validity was admitted, the "
+    "mineable set assembles into a block within the weight limit that process_block accepts.",
+    "Zero peers (broadcast paths see an empty peer set). NRD kernels not exercised. Two recorded known findings (lower-height reorg leaves no-longer-mineable txs).")
+
+reg("C15", "exploration",
+    "reference-model monitor: from-scratch bitmap commitment over the replayed unspent set vs the node's incremental accumulator, on multi-chunk worlds; forged-root blocks",
+    "A trunk spanning 2 (quick) / 4 (thorough) 1024-bit chunks is built once; scenarios on separate nodes: spends at indices 1020-1027, in the "
+    "oldest chunk, in the last partial chunk; a reorg from below the 1024-output boundary (rewind shrinks the output set across a chunk "
+    "boundary), regrowth, reorg back; random mixes with winning forks; restart. After EVERY accepted block the node's bitmap root must equal "
+    "the commitment recomputed from scratch; blocks whose output_root commits to another bitmap (5 variants, everything else right) must be refused.",
+    "SKIP_POW delivery. Trusted base: hash primitive and BitmapChunk serialisation.")
+
+reg("C18", "fault_enumeration",
+    "nested-transaction reference map + unique-id snapshot history checker (all-or-none per batch, prefix consistency) + crash enumeration around Batch::commit",
+    "Single-thread programs over 3 key spaces with nested batches to depth 3 and every commit/drop fate chain, compared op by op and after "
+    "reopen with a stack-of-overlays model; multi-thread runs (writers, point readers, snapshot iterators, iterator holders sleeping across "
+    "pending map resizes, >10 000 keys per space) where every snapshot must contain all or none of each batch's keys and equal some prefix of "
+    "the commit log; no operation may fail for lack of space during >=5 resizes; every crash point lmdb.commit.pre/post (also after a resize) "
+    "is killed by abort and the reopened content must equal exactly the state for the completed commits.",
+    "Process death, not power loss (OS page cache survives). Batches are sized to fit the 10% headroom the resize policy leaves (assumption recorded in the evidence).")
+
 NOT_READY_REASON = "check under construction in this session (design in DESIGN.md section 3); not yet claimed"
 
 def main():
